@@ -16,6 +16,7 @@ import datetime as dt_
 import itertools
 from fractions import Fraction
 
+from .. import worker
 from .. import core, obs, seeds
 from ..ref import calref
 from . import c04
@@ -159,6 +160,13 @@ def check_duration(acc, mods, comps, frac, kind):
     total_us = min(ok_us) + (y * 365 + mo * 30) * 86400 * US
     representable = abs(total_us) <= MAX_TD_US and all(v < 10 ** 9 for _, v in comps)
     case = {"kind": "dur", "comps": [list(c) for c in comps], "frac": list(frac) if frac else None, "s": s}
+    with worker.guarded(acc, "duration", case):
+        _check_duration(acc, mods, comps, frac, kind, s, y, mo, ok_us, representable, case)
+    acc.outcomes["representable" if representable else "too-large"] += 1
+
+
+def _check_duration(acc, mods, comps, frac, kind, s, y, mo, ok_us, representable, case):
+    pendulum, fns = mods
     results = {}
     for name, fn in list(fns.items()) + [("parse", pendulum.parse)]:
         got = outcome(fn, s)
@@ -180,14 +188,17 @@ def check_duration(acc, mods, comps, frac, kind):
         else:
             acc.mismatch(f"duration.{name}", f"{kind}/exception", case, got,
                          ["duration", y, mo, sorted(ok_us)] if representable else ["ValueError"])
-    acc.outcomes["representable" if representable else "too-large"] += 1
 
 
 def check_reject(acc, mods, s, kind):
     pendulum, fns = mods
     case = {"kind": "rej", "s": s, "form": kind}
     for name, fn in list(fns.items()) + [("parse", pendulum.parse)]:
-        got = outcome(fn, s)
+        with worker.guarded(acc, f"reject.{name}", case):
+            got = None
+            got = outcome(fn, s)
+        if got is None:
+            continue
         acc.c["evaluations"] += 1
         acc.c["transitions"] += 1
         if got != ("ValueError",):
